@@ -181,7 +181,6 @@ def dec(name, x):
 # ---------------------------------------------------------------------------------------------
 # laws: each returns (judged, ok, expected, observed)
 
-NUMERIC = ("prob", "log")
 ALGEBRA = ("prob", "log", "sym")
 
 PAIR_LAWS = ["plus", "times", "comm-plus", "comm-times", "normalize", "ad_complement2", "ad_negate"]
@@ -191,7 +190,6 @@ SINGLE_LAWS = ["ident-plus", "ident-times", "annihilate", "negate", "negate-twic
 CONST_LAWS = ["is_zero(zero())", "is_one(one())", "not is_zero(one())", "not is_one(zero())", "is_zero(value(0))",
               "is_one(value(1))", "true()", "false()", "to_evidence", "result_zero", "result_one"]
 DEFAULT_LAWS = ["is_one(one())", "is_zero(zero())", "not is_zero(one())", "not is_one(zero())"]
-CORR = ["plus", "times", "negate", "normalize", "value", "ad_complement2", "ad_negate", "is_zero", "is_one", "neg_value"]
 
 
 def sym_build(S, t):
